@@ -179,6 +179,9 @@ def run(ctx):
   Dense = collections.namedtuple('Dense', 'w b')
   trees = [{'w': leaf(3, 5), 'b': {'c': leaf(7), 'd': leaf(1)}}, leaf(6), (leaf(5), leaf(2, 2)), [leaf(3)], {'only': leaf(9)}, [leaf(4), {'x': leaf(3), 'y': (leaf(2),)}],
            [(leaf(3, 2), leaf(2)), (leaf(2, 2), leaf(2))], {'dense': Dense(leaf(4), leaf(3)), 'none': None}, (leaf(2), leaf(3), leaf(4))]
+  # tied parameters: ONE array object at two positions of the tree (each position has its own sub-key)
+  tied_a, tied_b = leaf(5), leaf(2, 3)
+  trees += [{'encoder': tied_a, 'decoder': tied_a}, [tied_b, leaf(3), tied_b]]
   for kseed in range(18):
     tree = trees[kseed % len(trees)]
     key = jax.random.PRNGKey(100 + kseed)
@@ -197,6 +200,30 @@ def run(ctx):
         ctx.violation('rotation:tree-inverse', f'leaf {p1}: inverse rotation of the tree does not restore the leaf (key {100 + kseed})', replay={'key': 100 + kseed})
       if abs(np.linalg.norm(np.asarray(l3)) - np.linalg.norm(np.asarray(l1))) > 1e-5 * np.linalg.norm(np.asarray(l1)):
         ctx.violation('rotation:tree-norm', f'leaf {p1}: rotation of the tree changes the norm (key {100 + kseed})', replay={'key': 100 + kseed})
+  # rotated values that come back from the host (writable NumPy arrays, as after decompression): the inverse must not write into
+  # them - the buffer is unchanged afterwards and a second inverse of it gives the same result
+  for shp in ((6,), (3, 5), (8,), (1,)):
+    x = nprng.randn(*shp).astype(np.float32)
+    key = jax.random.PRNGKey(321)
+    rot, oshape = wh.structured_rotation(jnp.array(x), key)
+    buf = np.array(rot)
+    snap = buf.copy()
+    nrot += 1
+    ctx.case(key=('inverse-on-host-buffer', shp), nontrivial=True)
+    try:
+      back1 = np.asarray(wh.inverse_structured_rotation(buf, key, oshape))
+      back2 = np.asarray(wh.inverse_structured_rotation(buf, key, oshape))
+      tb = {'a': np.array(rot), 'b': [np.array(rot)]}
+      tsnap = np.array(rot)
+      tback = wh.inverse_structured_rotation_pytree(tb, key, {'a': oshape, 'b': [oshape]})
+      jax.tree_util.tree_map(np.asarray, tback)
+    except Exception as ex:  # pylint: disable=broad-except
+      ctx.violation(f'rotation:exception:{type(ex).__name__}', f'{type(ex).__name__}: {str(ex)[:160]} un-rotating a NumPy array of shape {shp}', replay={'shape': shp})
+      continue
+    if not np.array_equal(buf, snap) or not np.array_equal(tb['a'], tsnap) or not np.array_equal(tb['b'][0], tsnap):
+      ctx.violation('rotation:inverse-writes-into-its-argument', f'the caller\'s NumPy array of rotated values (original shape {shp}) changed during the inverse rotation', replay={'shape': shp})
+    elif not np.allclose(back1, x, rtol=2e-5, atol=2e-6) or not np.allclose(back2, x, rtol=2e-5, atol=2e-6):
+      ctx.violation('rotation:inverse', f'inverse(rotate(x)) != x for a NumPy array of rotated values, shape {shp} (first / second call)', replay={'shape': shp})
   # the same tree rotated under a succession of FRESH key objects (each created after the previous one was dropped, as in a
   # loop over rounds): different keys give different rotations, and a value-equal key made later inverts
   tree_f = {'w': jnp.array(nprng.randn(3, 5), jnp.float32), 'b': jnp.array(nprng.randn(7), jnp.float32)}
